@@ -1,6 +1,6 @@
 """Contracts for the exception alias generation (C06: class-correct aliases; C01/C11: every raised alias exists)."""
 from pyvc.contracts import contract
-from pyvc.spec import uf, implies
+from pyvc.spec import uf, implies, is_int_list
 
 V = "pyopenapi_gen.visit.exception_visitor"
 E = "pyopenapi_gen.emitters.exceptions_emitter"
@@ -10,7 +10,7 @@ def exc_name(code):
     return uf("fn.get_exception_class_name", code)
 
 
-def render_spec(codes, n):
+def render_spec(codes: list, n: int) -> list:
     """the (class name, base class) pairs that must be rendered for the first n codes: one per 4xx/5xx code, 4xx under
     ClientError, 5xx under ServerError (from the statement of C06), in order"""
     if n <= 0:
@@ -24,7 +24,7 @@ def render_spec(codes, n):
     return prev
 
 
-def names_spec(codes, n):
+def names_spec(codes: list, n: int) -> list:
     if n <= 0:
         return []
     c = codes[n - 1]
@@ -35,7 +35,7 @@ def names_spec(codes, n):
 
 
 def int_list(xs):
-    return all(isinstance(x, int) and not isinstance(x, bool) for x in xs)
+    return is_int_list(xs)
 
 
 # ---- ExceptionsEmitter._generate_for_codes -------------------------------------------------------------
